@@ -175,6 +175,9 @@ def build_stack(plan, stack_spec, fun, bounds):
         if k == "count":
             p = EvalCountingProblem(p)
         elif k == "cutoff":
+            for _ in range(int(ls.get("pre_evals", 0))):
+                # the user evaluated the stack built so far a few times before putting a budget around it
+                p.evaluate(np.array([(lo + hi) / 2.0 for lo, hi in bounds], dtype=float))
             p = EvalCutoffProblem(p, int(ls["n"]))
         elif k == "precision":
             p = PrecisionCutoffProblem(p, float(ls["opt"]), float(ls["eps"]))
